@@ -461,10 +461,16 @@ def selector_vector(c, H, W):
     ]
 
 
+HEAD_RULE_REPAIRED = {"on": False}      # set by check()/replay() from detect_fixed(): F20 and F43 are then no excuse
+
+
 def selector_of(c, H, W):
-    """The known-finding selector a failing (configuration, input) falls under, or None."""
+    """The known-finding selector a failing (configuration, input) falls under, or None.
+    With the repaired head in_channels rule (F20/F43 fixed in the code under test) those two
+    selectors are not offered: a failure is attributed to one of the remaining ones or to none."""
     for name, on in zip(SELECTOR_ORDER, selector_vector(c, H, W)):
-        if on:
+        if on and not (HEAD_RULE_REPAIRED["on"] and name in ("patch_stride_lt_min_output_stride",
+                                                             "head_in_channels_rounding")):
             return name
     return None
 
@@ -620,6 +626,7 @@ def check(run: core.Run) -> int:
     thorough = run.tier == "thorough"
     rng = run.rng
     fixed = detect_fixed(mods)
+    HEAD_RULE_REPAIRED["on"] = fixed
     run.notes.append(f"head in_channels rule detected in the code: {'repaired (reads the decoder block)' if fixed else 'pinned (recomputed from max_channels)'}")
 
     cases = [dict(c) for c in load_corpus()]
@@ -781,6 +788,7 @@ def check(run: core.Run) -> int:
 
 def replay(run: core.Run, path: str) -> int:
     mods = import_mods()
+    HEAD_RULE_REPAIRED["on"] = detect_fixed(mods)
     rep = json.load(open(path))
     c = rep["case"]
     if "numeric" in rep:
